@@ -585,6 +585,8 @@ def probe_split_exponential(ctx, f, t, cuts):
         for k, s in enumerate(us):
             L, tof, em, rc = float(s.path_length), float(s.tof), U.fl(s.emitted_direction), U.fl(s.received_direction)
             uf = s.fresnel
+            if math.hypot(em[0], em[1]) < 0.08 or math.hypot(rc[0], rc[1]) < 0.08:
+                continue      # near-vertical (beta < ~0.1): beta_tolerance regime of the analytic tracer, C01's domain
             tolL, told = 1e-3 + 1e-6 * L, 1e-5
             hit = [d for d in ld if abs(d[0] - L) <= tolL and U.vdiff(d[2], em) <= told and U.vdiff(d[3], rc) <= told]
             if not hit:
